@@ -1,5 +1,7 @@
 import LocustModel.Proto
 import LocustModel.Codec.Ingest
+import LocustModel.Codec.Csv
+import LocustModel.Codec.Split
 /-
   Driver for C01.  Input line:
     c01 <kind> <i2f> <showf> <ncols> <item> <item> ...
@@ -137,6 +139,18 @@ def idComp : Compressor := { enc := id, dec := id }
     /repo and the model mirrors the fixed code; a fixed entry suppresses nothing). -/
 def classify (_cv : Conv) (_cb : ColBuf) : Option String := none
 
+/-- `Buffer.columnCells` with the decode the planner really builds: `ensure_fixed_width` prefix first, then the rest
+    of the codec (`decodeQuery`, Codec/Split.lean; `C01_split_decode` proves it equal to `decode` for every builder column). -/
+def columnCellsQ (cv : Conv) (b : Buffer) (name : String) : Except Fault (List Cell) :=
+  match b.cols.find? (·.1 = name) with
+  | none => .ok (List.replicate b.length .null)
+  | some (_, cb) => do
+      let col ← cb.finalize cv
+      if col.len ≠ cb.length then .error .assert
+      else match decodeQuery id col with
+        | .ok v => .ok (cellsOf v)
+        | .error e => .error e
+
 structure Out where
   cols : List (List Cell)       -- per column, accumulated over partitions
   fault : Option Fault := none
@@ -155,7 +169,7 @@ def finishSegment (cv : Conv) (ncols : Nat) (b : Buffer) (o : Out) : Out :=
           | .ok c => showShape c
           | .error e => "fault:" ++ toString e
       | none => "absent"
-    match b.columnCells cv idComp false name with
+    match columnCellsQ cv b name with
     | .ok cells =>
       { o with cols := o.cols.mapIdx (fun j c => if j = i then c ++ cells else c), shapes := o.shapes ++ [shape],
                known := o.known.orElse fun _ => known }
@@ -189,19 +203,8 @@ def specSegments (items : List Item) (col : Nat) : List (List Op) :=
 def specCells (cv : Conv) (items : List Item) (col : Nat) : List Cell :=
   (specSegments items col).flatMap (specColumn cv)
 
-/-! CSV: `RawCol::{push, finalize}` of csv_loader.rs — type inference per chunk of `partition_size` rows.
-    `str::parse::<i64>` / `parse::<f64>` (Rust std) arrive as per-cell hints. -/
-inductive CsvHint where
-  | empty
-  | int (i : Int) (asFloat : Nat)
-  | float (bits : Nat)
-  | str
-  deriving Repr, DecidableEq
-
-structure CsvCell where
-  text : Bytes
-  hint : CsvHint
-
+/-! CSV: `RawCol::{push, finalize}` of csv_loader.rs — type inference per chunk of `partition_size` rows
+    (model: Codec/Csv.lean).  `str::parse::<i64>` / `parse::<f64>` (Rust std) arrive as per-cell hints. -/
 def parseCsvCell (s : String) : Option CsvCell :=
   match s.splitOn "~" with
   | [t, "n"] => (parseHexBytes? t).map fun b => ⟨b, .empty⟩
@@ -218,26 +221,6 @@ def parseCsvCell (s : String) : Option CsvCell :=
           pure ⟨b, .float f⟩
       | _ => none
   | _ => none
-
-/-- `RawCol::finalize(name, string = false)` on one chunk. -/
-def csvFinalize (allowNull : Bool) (cells : List CsvCell) : List RawVal :=
-  let hasStr := cells.any fun c => c.hint == .str
-  let hasFloat := cells.any fun c => match c.hint with | .float _ => true | _ => false
-  let hasInt := cells.any fun c => match c.hint with | .int _ _ => true | _ => false
-  if hasStr then
-    cells.map fun c => if allowNull && c.text.isEmpty then .null else .str c.text
-  else if hasFloat then
-    cells.map fun c => match c.hint with
-      | .empty => if allowNull then .null else .float 0
-      | .int _ f => .float f
-      | .float f => .float f
-      | .str => .null
-  else if hasInt then
-    cells.map fun c => match c.hint with
-      | .empty => if allowNull then .null else .int 0
-      | .int i _ => .int i
-      | _ => .null
-  else cells.map fun _ => .null
 
 def chunks {α : Type} (n : Nat) (l : List α) : List (List α) :=
   if n = 0 then [l] else
